@@ -20,7 +20,15 @@ for d in sorted(glob.glob("/verif/seeded/*")):
     conf = m.get("confirm", {}).get("confirmed")
     res = []
     for pid, r in sorted(m.get("checks", {}).items()):
-        res.append("%s: %s (%ds)" % (pid, "caught" if r.get("detected") else ("exit %s — MISSED" % r.get("exit")), r.get("wall_s", 0)))
+        if not m.get("breaks"):
+            verdict = "no alarm" if r.get("exit") == 0 else ("exit %s (inconclusive)" % r.get("exit") if r.get("exit") == 2 else "exit %s — FALSE ALARM" % r.get("exit"))
+        elif r.get("detected"):
+            verdict = "caught"
+        elif pid not in m.get("breaks", []) and r.get("exit") == 0:
+            verdict = "exit 0 (property holds under this mutation)"
+        else:
+            verdict = "exit %s — MISSED" % r.get("exit")
+        res.append("%s: %s (%ds)" % (pid, verdict, r.get("wall_s", 0)))
     rows.append("| %s | %s | %s | %s | %s |" % (name, ", ".join(m.get("breaks", [])), first.replace("|", "/"), "yes" if conf else "no", "; ".join(res) or "not run"))
 print("| mutation | breaks | what it needs | confirmed | quick checks run against it |")
 print("|---|---|---|---|---|")
